@@ -3,6 +3,7 @@ package main
 import (
 	"fmt"
 	"go/token"
+	"os"
 	"sort"
 
 	"golang.org/x/tools/go/ssa"
@@ -64,6 +65,9 @@ func (fr *Frame) dryRunLoop(li *loopInfo, st *State) *modSet {
 		backs := fr.dryBack
 		fr.dryBack = saveBack
 		fr.incoming = saveInc
+		if len(backs) == 0 && round == 0 {
+			fr.run.noteOnce(fmt.Sprintf("loop %d of %s: no path reaches the back edge (loop body never repeats?)", li.ordinal, fr.fn.Name()))
+		}
 		before := len(ms.cells) + len(ms.keys)
 		for _, b := range backs {
 			diffStates(s, b, ms)
@@ -71,6 +75,14 @@ func (fr *Frame) dryRunLoop(li *loopInfo, st *State) *modSet {
 		if len(ms.cells)+len(ms.keys) == before {
 			break
 		}
+	}
+	if os.Getenv("GOVC_DEBUG_LOOP") != "" {
+		var ks []string
+		for k := range ms.keys {
+			ks = append(ks, k)
+		}
+		sort.Strings(ks)
+		fmt.Fprintf(os.Stderr, "DEBUG loop %d of %s modifies heap keys %v and %d cells\n", li.ordinal, fr.fn.Name(), ks, len(ms.cells))
 	}
 	return ms
 }
@@ -338,14 +350,14 @@ func (fr *Frame) frameCheck(kind string, base, fin *State, locs []modLoc, tags [
 
 func (fr *Frame) atHook(where, target string, ins ssa.Instruction, st *State) {
 	c := fr.contract
-	if c == nil || fr.dryMode() {
+	if c == nil {
 		return
 	}
 	for i, at := range c.Ats {
 		if at.Where != where || at.Target != target {
 			continue
 		}
-		if at.Loop != 0 {
+		if at.Loop != 0 && ins != nil {
 			ok := false
 			for _, li := range fr.loopList {
 				if li.ordinal == at.Loop && li.body[ins.Block()] {
@@ -357,6 +369,15 @@ func (fr *Frame) atHook(where, target string, ins ssa.Instruction, st *State) {
 			}
 		}
 		if at.Nth != 0 && where == "call" && fr.callOrd[target][ins] != at.Nth {
+			continue
+		}
+		if at.Nth != 0 && where == "return" && fr.ordinals["return"][ins] != at.Nth {
+			continue
+		}
+		if at.Kind == "bump" {
+			// ghost update: <name> := <name> + 1
+			key := "ghost:" + at.Clause.Expr.Tok
+			st.setH(key, Add(st.H(key, SInt), IntLit(1)))
 			continue
 		}
 		env := fr.specEnv(st)
